@@ -53,6 +53,9 @@ func init() {
 		if os.Getenv("DBGDREAD") != "" {
 			surveyDirectRead(p)
 		}
+		if os.Getenv("DBGERRPROP") != "" {
+			surveyErrProp(p)
+		}
 		if os.Getenv("DBGOVW") != "" {
 			surveyOverwritten(p)
 		}
